@@ -3,24 +3,79 @@
 COMPONENTS = {
     "real": [
         "httpcache transport, options and internal/* wired through httpcache.NewTransport",
-        "store registry, store/memcache, store/expapi handlers",
+        "store registry, store/memcache, store/expapi handlers (through net/http.ServeMux + httptest recorder)",
         "store/fscache incl. AES-GCM encryption (compiled from a scratch copy whose only change is the two import lines os / path/filepath)",
         "net/http response parser (http.ReadResponse) on simulated wire bytes",
         "log/slog text and JSON handlers",
     ],
-    "virtual": ["clock, timers, context deadlines (testing/synctest bubble)", "goroutine scheduling (park/release at seam operations, seeded)"],
-    "stub": ["origin server and network (scripted resources, wire-level chunking / latency / faults)", "disk under fscache (in-memory POSIX-like simos with fault hooks)"],
+    "virtual": ["clock, timers, context deadlines (testing/synctest bubble)", "goroutine scheduling (park/release at seam operations, seeded choice tape)"],
+    "stub": ["origin server and network (scripted resources, wire-level chunking / latency / faults; HTTP/2-shaped responses built by hand)", "disk under fscache (in-memory POSIX-like simos with fault hooks, process-kill semantics)"],
 }
 
-def P(profiles, stream, level="exploration", runs=(3000, 200000), rule="", budget=(40, 600), **kw):
+GEN = ("Scenarios (backend, logger, timeouts, origin resource scripts, client operation lists, fault plan, schedule strategy) are drawn from a PRNG "
+       "seeded with mix(VERIF_SEED, run index); run-time decisions (which parked goroutine runs next, stalls) come from the choice tape. ")
+
+
+def P(profiles, stream, level="exploration", runs=(4000, 400000), rule="", budget=(35, 600), **kw):
     d = {"profiles": profiles, "stream": stream, "level": level, "runs": {"quick": runs[0], "thorough": runs[1]},
-         "budget": {"quick": budget[0], "thorough": budget[1]}, "rule": rule}
+         "budget": {"quick": budget[0], "thorough": budget[1]}, "rule": GEN + rule}
     d.update(kw)
     return d
 
-GEN = "Scenarios (backend, logger, timeouts, origin resource scripts, client operation lists, fault plan, schedule strategy) are drawn from a PRNG seeded with mix(VERIF_SEED, run index); run-time decisions (which parked goroutine runs next, stalls) come from the choice tape. "
 
 PROPS = {
-    "C01": P(["fresh", "fresh", "valid", "swr", "hits"], 101, rule=GEN + "Workload concentrates on max-age / Expires / heuristic lifetimes, Age and skewed Date values, response delay, request max-stale/min-fresh/max-age and think times at lifetime and stale-while-revalidate boundaries.",
-             require_probes=["served-fresh-", "C01/served-stale"]),
+    "C01": P(["fresh", "fresh", "valid", "swr", "hits"], 101,
+             rule="Workload concentrates on max-age / Expires / heuristic lifetimes, Age and skewed Date values, response delay, request max-stale/min-fresh/max-age and think times at lifetime and stale-while-revalidate boundaries.",
+             require_probes=["served-fresh-", "C01/served-stale"], technique="deterministic simulation: virtual clock + seeded histories, RFC 9111 reference age/lifetime interval oracle"),
+    "C02": P(["valid", "valid", "oic", "sie", "fresh"], 102,
+             rule="Workload mixes stored no-cache / no-cache=\"fields\" / must-revalidate / immutable / SWR / SIE with request no-cache / max-age / max-stale / min-fresh / only-if-cached, validators present or not, and origin answers 304 / 200 / 5xx / transport error to the validation.",
+             require_probes=["C02/unvalidated-reuse", "C02/validation-request-wrong"], technique="deterministic simulation: seeded histories against a scripted origin, permission oracle over the recorded upstream-call log"),
+    "C04": P(["vary", "vary", "conc"], 104,
+             rule="Few URIs, many requests per URI, origin Vary scripts that change over time (none, one or several fields, order changes, '*'), selecting header values built from meaning tables incl. name-like concatenations; 1-2 concurrent clients.",
+             require_probes=["C04/wrong-variant"], technique="deterministic simulation: seeded histories of variant-index evolution, equivalence-by-construction oracle"),
+    "C05": P(["fidelity"], 105,
+             rule="Origin responses in all framings (Content-Length, chunked with trailers, close-delimited, HTTP/1.0, HTTP/2-shaped), arbitrary body bytes 0..64KiB (1MiB thorough), multi-valued / hop-by-hop / Connection-nominated fields, wire chunking with delays, all three backends with short disk reads.",
+             require_probes=["C05/stored-copy-differs", "C05/miss-body-differs"], technique="deterministic simulation: simulated wire + simulated disk, byte-exact provenance oracle"),
+    "C06": P(["store", "store", "faults"], 106,
+             rule="Statuses 100-599, no-store on either side, non-GET methods, Range, client conditionals, must-understand with unassigned codes, responses without explicit freshness, body streams failing at a wire byte; every value reaching Conn.Set is scanned for origin-response tokens.",
+             require_probes=["C06/forbidden-store", "net."], technique="deterministic simulation with network fault injection; monitor on every write at the store seam"),
+    "C07": P(["inval"], 107,
+             rule="GETs in several spellings and variants interleaved with unsafe requests of registered, WebDAV and unknown method tokens, statuses 1xx-5xx, relative / absolute / same- / cross-origin Location and Content-Location; 1-2 clients.",
+             require_probes=["C07/served-after-invalidation"], technique="deterministic simulation: seeded histories, happens-before oracle on store writes vs unsafe exchanges"),
+    "C08": P(["writeback", "writeback", "swr"], 108,
+             rule="Short lifetimes relative to think times so that entries are validated repeatedly; 304s carrying header updates, full replies with changed validators, 2-4 variants per URI, stale-while-revalidate so refreshes run in the detached goroutine at scheduler-chosen instants.",
+             require_probes=["C08/"], technique="deterministic simulation: virtual clock, scheduler-controlled background goroutine, quiet-window model of the latest origin response"),
+    "C09": P(["hits"], 109,
+             rule="Every RFC 3986 spelling transformation and every documented selecting-header spelling, explicit and heuristic freshness, heuristically cacheable statuses, all backends, graceful restart between storing and reuse.",
+             require_probes=["C09/expected-hit-missed", "expected-hit-respelled"], technique="deterministic simulation: quiet-window liveness oracle (latest stored response must be served without origin contact)"),
+    "C10": P(["placement"], 110, level="fault_enumeration", mode="enum", runs=(0, 0), budget=(35, 900),
+             rule="For each sampled short base history: the fault-free baseline fixes the sites; then every single placement (store operation x {error, not-exist, truncation, bit flip, 15 corpus values, another key's value / set error, error-but-applied / delete error}; upstream call x {error, 5xx, 404, reset at header/body byte, premature EOF, hang}) and sampled pairs are executed; each base is also replayed under text / JSON / info loggers and the event-log digests compared.",
+             require_probes=["store.get.err", "store.get.corpus", "net.error-before-header", "C10/log-dependence"], technique="deterministic simulation with exhaustive single-fault placement around sampled histories (store and origin seams)"),
+    "C11": P(["fresh", "valid", "swr", "sie", "oic"], 111,
+             rule="Rides on the freshness / validation / SWR / SIE / only-if-cached workloads, plus upstream Age, skewed Date and response delay.",
+             require_probes=["C11/status-mismatch", "C11/age-wrong"], technique="deterministic simulation: virtual clock; history-derived classification of every response vs its Age and cache-status fields"),
+    "C13": P(["sie"], 113,
+             rule="Stale entries with validators; stale-if-error on the stored response, the request, both, neither; staleness around the window boundary; failure kinds transport error, reset in header, statuses 4xx/5xx; must-revalidate / no-cache variants.",
+             require_probes=["sie-window-inside", "sie-window-outside"], technique="deterministic simulation with origin fault injection at validation time; virtual clock around the window boundary"),
+    "C14": P(["map"], 114, runs=(6000, 400000),
+             rule="One client, 6-70 operations (Set, Get, Delete, Keys(prefix), reopen, buffer mutation after Set / of the slice returned by Get, and the same through the expapi handlers) over adversarial key tables (lengths around 36/48/191/255 bytes, keys that are prefixes of other keys, bytes 0x00-0xFF, URL-shaped keys with '#', empty key), values 0..3000 bytes (1 MiB thorough), backends memory / file system / encrypted; refinement against a Go map after every step.",
+             require_probes=["C14/get-differs", "C14/keys-differs"], technique="deterministic simulation over a simulated disk: step-by-step refinement against a map model with reopen as an operation"),
+    "C15": P(["atomic"], 115, level="fault_enumeration", mode="mixed", runs=(3000, 300000), budget=(25, 600),
+             rule="(1) Cut-point sweep: value lengths {1,2,17,300,(4097)}, with and without a previous (shorter / longer) value, plain and encrypted: the write fails after every k in 0..len with ENOSPC / EIO or the process is killed after k bytes or at any operation boundary of the Set; restart; Get. (2) Interleavings: 2-4 clients x 2-6 operations on 1-2 keys, every disk call a yield point, writes split into chunks, random / sticky / PCT schedules, stalls, with and without the faults above. Oracles: torn-read (self-describing values) and porcupine register linearizability with nondeterministic outcome for failed or killed Sets.",
+             require_probes=["disk.crash@write", "disk.enospc@write", "C15/not-linearizable"], technique="deterministic simulation: syscall-level interleaving + exhaustive write cut points / kill points; porcupine linearizability of recorded histories"),
+    "C16": P(["conc"], 116, runs=(3000, 300000), race=True,
+             rule="2-4 clients on the same and different URIs and variants, GETs and unsafe methods, stale-while-revalidate entries so that background revalidations overlap the callers' use of returned responses, stall faults, callers poisoning the responses and requests they own. (a) sequential rules C01/C02/C04/C05 on every response, (b) snapshot of every returned header map at return vs end of run + poison tracking, (c) -race build with pairwise-parallel release of parked goroutines.",
+             require_probes=["C16/returned-response-mutated", "C16/poison-leaked"], technique="deterministic simulation: seeded interleavings at seam granularity; ownership snapshots; Go race detector on pairwise-parallel steps"),
+    "C17": P(["crypt"], 117, level="fault_enumeration", mode="mixed", runs=(1500, 100000), budget=(25, 600),
+             rule="(1) Sweep for entries <= 100 (484 thorough) bytes: every byte position x {xor 0x01, xor 0x80, xor random}, truncation to every length, extension by 1 and 16 bytes, emptying; wrong key on reopen; six ways of requesting encryption without a usable key; each for encryption enabled by option, DSN and environment. (2) concurrent Set/Get/Delete runs on the encrypted backend with a monitor on every simulated disk write (no 8-byte window of any plaintext value).",
+             require_probes=["disk.at-rest-flip1", "disk.at-rest-trunc", "config.unusable-key", "C17/plaintext-on-disk"], technique="deterministic simulation: at-rest corruption as a storage fault, exhaustive byte positions; plaintext monitor on every disk write"),
+    "C18": P(["oic", "oic", "valid"], 118,
+             rule="Requests with only-if-cached (alone and with max-stale / no-cache / max-age / min-fresh) against store states empty, fresh, stale, no-cache, must-revalidate, other variant only, corrupted entry (Conn-level mutation), SWR-eligible.",
+             require_probes=["C18/network-touched"], technique="deterministic simulation: upstream-call attribution by goroutine lineage (foreground and background)"),
+    "C19": P(["growth"], 119, runs=(700, 30000), budget=(40, 900),
+             rule="A finite alphabet of <=4 URIs x <=4 header combinations (optionally an unsafe method) repeated for 8N requests (N=40 quick, 100-500 thorough) against origins using Vary (incl. '*' and changing sets), validation, stale-while-revalidate and 1-60 s lifetimes; store footprint recorded at N, 2N, 4N, 8N; one third of the runs end with an unsafe request to every URI.",
+             require_probes=["C19/keys-unbounded", "C19/invalidation-leak"], technique="deterministic simulation: long histories on a virtual clock, footprint trend oracle at N/2N/4N/8N"),
+    "C20": P(["swr"], 120,
+             rule="SWR-eligible stale entries with and without validators; background origin latency 0..timeout-1ns, timeout, timeout+1ns, 10x timeout, never; outcomes 304 / 200 / 5xx / error / reset mid-body; WithSWRTimeout unset, 0, negative, 1ns, 1s, 5s, 60s; caller context cancelled before / after return.",
+             require_probes=["swr-served", "swr-timeout-fired"], technique="deterministic simulation: virtual clock + quiescence detection; causal foreground-latency, exactly-once and goroutine-census oracles"),
 }
